@@ -87,6 +87,12 @@ Theorem C15_check_entities_sound : forall sch enums, schema_decl sch -> agraph_w
   store_ok sch st /\ actions_conform sch st /\ store_types_known sch st.
 Proof. exact check_entities_sound. Qed.
 
+(* action entities exactly: declared, bare, and their parents are EXACTLY the transitive closure of their declared groups (the walk that
+   computes the closure runs on fuel in the model; the fuel always suffices: action_closure_exact0) *)
+Theorem C15_check_action_entity_exact : forall sch, agraph_wf sch -> forall u e, check_action_entity sch (u, e) = true <->
+  (umem u (ts_actions sch) = true /\ e_attrs e = [] /\ e_tags e = [] /\ (forall p, In p (e_parents e) <-> aclosure sch u p)).
+Proof. exact check_action_entity_exact. Qed.
+
 (* a request Validator.Request accepts lives in a request environment of the schema and is typed by it *)
 Theorem C15_check_request_sound : forall sch acts, acts_decl acts -> forall p a r ctx, vnodup (VRecord ctx) ->
   check_request sch acts p a r ctx = true ->
@@ -116,6 +122,7 @@ Definition C15_end_to_end_nonvacuous := ex_never_type_errors.
 
 Print Assumptions C15_check_value_exact.
 Print Assumptions C15_check_entities_sound.
+Print Assumptions C15_check_action_entity_exact.
 Print Assumptions C15_check_request_sound.
 Print Assumptions C15_end_to_end.
 Print Assumptions C15_end_to_end_nonvacuous.
